@@ -70,7 +70,7 @@ RULE = ('directed prefix (one case per validator branch, the witnesses of the fi
         'floats incl. nan/inf and the float neighbours of every bound, Fraction, Decimal, big ints, str, bytes, containers, dates, '
         'callables, classes, instances; Integer with a 38-value pool in the quick tier); Range the same bounds x step {None,1,-1} x ~90 pairs (every third declaration in the quick tier); length grids for the Tuple family and List, '
         'item types, Selector object lists x check_on_set x allow_None, class lattices for ClassSelector, date bounds for the four date '
-        'types, every CSS3 colour name x case variants + hex strings of length 0..8, regexes; every value through 5 routes. thorough adds '
+        'types, every CSS3 colour name x case variants + hex strings of length 0..8, regexes; every value through 5 routes; aliasing stream: for List/HookList/ListSelector/Selector/Dict/ClassSelector a fresh container is assigned, the object the parameter then holds is mutated in place (append/extend/insert/setitem/pop/clear) and the identical object is assigned again through instance attribute, param.update and class attribute - the verdict must be the one for its content at that moment. thorough adds '
         'float-valued bounds and random declarations/values. non-trivial = constructor succeeded, at least one value accepted and one '
         'rejected, every attempt oracle-checked; distinct = distinct canonical case')
 
@@ -80,7 +80,7 @@ PTYPES = ['String', 'Bytes', 'Number', 'Integer', 'Magnitude', 'Date', 'Calendar
 COVERAGE_TARGETS = [f'{t}:ok' for t in PTYPES] + [f'{t}:ValueError' for t in PTYPES] + \
     [f'{t}:TypeError' for t in ('Number', 'DateRange', 'CalendarDateRange', 'List', 'ClassSelector')] + \
     ['ctor:ok', 'ctor:ValueError', 'route:deser', 'nan-vs-bounds', 'boundary:inclusive', 'boundary:exclusive',
-     'allow_None:on', 'allow_None:off']
+     'allow_None:on', 'allow_None:off', 'alias:reassign-accepted', 'alias:reassign-rejected']
 
 DAY_US = 86400 * 10**6
 
@@ -313,6 +313,63 @@ def _attempt(do, read, v, eq=False):
     return ['ok', 'same' if same else 'diff']
 
 
+def apply_ops(obj, ops, dec):
+    """in-place mutation of a held list / dict (plain Python, no param involved)"""
+    for op in ops:
+        k = op[0]
+        if k == 'append':
+            obj.append(dec(op[1]))
+        elif k == 'extend':
+            obj.extend([dec(x) for x in op[1]])
+        elif k == 'insert0':
+            obj.insert(0, dec(op[1]))
+        elif k == 'pop':
+            obj.pop()
+        elif k == 'clear':
+            obj.clear()
+        elif k == 'setitem':
+            obj[op[1] if isinstance(obj, list) else dec(op[1])] = dec(op[2])
+        elif k == 'del':
+            del obj[dec(op[1])]
+        else:
+            raise ValueError(op)
+    return obj
+
+
+class _AliasBroken(Exception):
+    pass
+
+
+def _run_alias(case, env, C1, C2):
+    """aliasing stream: per route, assign a fresh container, take the object the parameter now HOLDS,
+    mutate it in place, assign that identical object again.  -> [first outcome, second outcome, read-back]"""
+    out = []
+    for ac in case.get('alias', []):
+        o = {}
+        for route in ('inst', 'upd', 'cls'):
+            h = env.dec(ac['start'])
+            if route == 'cls':
+                target, do = C2, (lambda v: setattr(C2, 'p', v))
+            else:
+                target = C1()
+                do = (lambda v, t=target: setattr(t, 'p', v)) if route == 'inst' else (lambda v, t=target: t.param.update(p=v))
+            read = lambda t=target: t.param.get_value_generator('p')
+            first = _attempt(lambda: do(h), read, h)
+            if first[0] != 'ok':
+                o[route] = [first[0], None, None]
+                continue
+            held = read()
+            if not isinstance(held, (list, dict)):
+                raise _AliasBroken(f'held value is {type(held).__name__}')
+            apply_ops(held, ac['ops'], env.dec)
+            if env.enc(held) != ac['after']:
+                raise _AliasBroken(f'content after the in-place mutation is {env.enc(held)!r}, expected {ac["after"]!r}')
+            second = _attempt(lambda: do(held), read, held)
+            o[route] = [first[0] if first[1] == 'same' else 'ok-copied', second[0], second[1]]
+        out.append(o)
+    return out
+
+
 def run_impl(case):
     import param
     ptype, args = case['ptype'], case['args']
@@ -322,7 +379,7 @@ def run_impl(case):
         try:
             p1 = P(**_kwargs(ptype, args, env))
         except Exception as e:
-            return {'ctor': _ename(e), 'slots': None, 'vals': []}
+            return {'ctor': _ename(e), 'slots': None, 'vals': [], 'alias': []}
         p2 = P(**_kwargs(ptype, args, env))
         slots = {'allow_None': bool(p1.allow_None),
                  'length': p1.length if ptype in HAS_LEN else None,
@@ -360,7 +417,7 @@ def run_impl(case):
                     box['d'] = C1(p=dv)
                 o['deser'] = _attempt(de, lambda: box['d'].param.get_value_generator('p'), dv, eq=True) + [dj]
             out.append(o)
-        return {'ctor': 'ok', 'slots': slots, 'vals': out}
+        return {'ctor': 'ok', 'slots': slots, 'vals': out, 'alias': _run_alias(case, env, C1, C2)}
     except Exception as e:  # the harness itself could not drive the object: report, do not hide
         return {'crash': f'{type(e).__name__}: {e}'[:300]}
 
@@ -383,10 +440,19 @@ def _rx_bit(ptype, args, j):
     return False
 
 
-def mk(ptype, args, values):
+def mk(ptype, args, values, alias=()):
     d = args['default']['v'] if 'default' in args else ({'s': ''} if ptype == 'String' else {'y': ''} if ptype == 'Bytes' else None)
-    return {'ptype': ptype, 'args': args, 'mro': MRO, 'values': values,
-            'rx': [_rx_bit(ptype, args, j) for j in values], 'rx_default': _rx_bit(ptype, args, d)}
+    c = {'ptype': ptype, 'args': args, 'mro': MRO, 'values': values,
+         'rx': [_rx_bit(ptype, args, j) for j in values], 'rx_default': _rx_bit(ptype, args, d)}
+    if alias:
+        c['alias'] = [al(a['start'], a['ops']) for a in alias]
+    return c
+
+
+def al(start, ops):
+    """alias entry: start container (tagged), in-place ops (tagged operands), and the content after them"""
+    env = Env()
+    return {'start': start, 'ops': ops, 'after': env.enc(apply_ops(env.dec(start), ops, env.dec))}
 
 
 INF = float('inf')
@@ -765,6 +831,73 @@ CSS3 = ('aliceblue antiquewhite aqua aquamarine azure beige bisque black blanche
         'slategrey snow springgreen steelblue tan teal thistle tomato turquoise violet wheat white whitesmoke yellow yellowgreen').split()
 
 
+def alias_cases():
+    """aliasing stream: a container the parameter already holds is mutated in place and assigned back
+    (the identical object).  The verdict must be the one for its content at that moment."""
+    def a(start, *ops):
+        return {'start': E(start), 'ops': [list(o) for o in ops]}
+    ap = lambda v: ('append', E(v))
+    # List: item type and length bounds
+    la = [a([1], ap('a')), a([1], ap(2)), a([1, 2], ('extend', [E(3), E(4)])), a([1, 2, 3], ap(True)), a([], ap(1)),
+          a([1, 2], ('setitem', 0, E('x'))), a([1, 2], ('pop',)), a([1], ('clear',)), a(['a'], ('clear',), ap(1)),
+          a([1, 2, 3], ('insert0', E(None))), a([1.5], ('pop',))]
+    for kw in (A(item_type=[1], bounds=[0, 3]), A(item_type=[1], bounds=[0, 3], default=E([1])), A(bounds=[1, 2], default=E([0])),
+               A(item_type=[1, 4]), A(item_type=[1], allow_None=True, bounds=[1, None], default=None), A(bounds=None, item_type=[2])):
+        yield mk('List', kw, [], la)
+    yield mk('List', A(item_type=[100]), [], [a([OA], ap(OB)), a([OA], ap(OD)), a([OA, OB], ('setitem', 1, E(1))), a([], ap(UA))])
+    yield mk('List', A(item_type=[100], is_instance=False), [], [a([UA], ap(UB)), a([UA], ap(UD)), a([UA], ap(OA))])
+    yield mk('HookList', {}, [], [a([F1], ap(1)), a([F1], ap(F2)), a([], ap('f')), a([F1, F2], ('setitem', 0, E(None)))])
+    yield mk('HookList', A(bounds=[0, 1]), [], [a([F1], ap(F2)), a([], ap(F1))])
+    # ListSelector: allowed objects
+    sa = [a([1], ap(4)), a([1], ap(2)), a([1, 2], ('setitem', 0, E('a'))), a([], ap(None)), a([3], ap(3.0)), a([1], ('clear',)),
+          a([2], ('extend', [E(1), E(77)])), a([4], ('clear',))]
+    for kw in (A(objects=[E(1), E(2), E(3)]), A(objects=[E(1), E(2), E(3)], allow_None=True),
+               A(objects=[E(1), E(2), E(3)], default=E([1])), A(objects=[E(1), E(2), E(3)], check_on_set=False),
+               A(objects=[E(1), E(None)], allow_None=True)):
+        yield mk('ListSelector', kw, [], sa)
+    # Selector whose objects are containers; class-typed containers (stay valid whatever the content)
+    yield mk('Selector', A(objects=[E([3]), E([1, 2]), E(1.5)]), [], [a([3], ap(4)), a([1], ap(2)), a([1, 2], ('pop',), ap(2))])
+    yield mk('Dict', {}, [], [a({'a': 1}, ('setitem', E('b'), E([2]))), a({}, ('setitem', E(1), E(None))), a({'a': 1}, ('del', E('a')))])
+    yield mk('ClassSelector', A(class_=[6]), [], [a([], ap(1)), a([1], ('clear',))])
+    yield mk('ClassSelector', A(class_=[8, 6], allow_None=True), [], [a({}, ('setitem', E('k'), E(1))), a([1], ap('x'))])
+
+
+def random_alias_case(rng):
+    atoms = [1, 2, 3, 4, 'a', True, None, 1.5, OA, OB, OD, F1, UA]
+    def ops():
+        out = []
+        for _ in range(rng.randint(1, 3)):
+            r = rng.random()
+            if r < 0.5:
+                out.append(['append', E(rng.choice(atoms))])
+            elif r < 0.65:
+                out.append(['extend', [E(rng.choice(atoms)) for _ in range(rng.randint(0, 3))]])
+            elif r < 0.8:
+                out.append(['insert0', E(rng.choice(atoms))])
+            elif r < 0.9:
+                out.append(['clear'])
+            else:
+                out.append(['extend', []])
+        return out
+    if rng.random() < 0.6:
+        mn, mx = rng.choice([None, 0, 1, 2]), rng.choice([None, 1, 2, 3, 5])
+        it = rng.choice([None, [1], [4], [1, 4], [100], [101], [0]])
+        args = A(bounds=[mn, mx], default=None)
+        if it is not None:
+            args.update(A(item_type=it))
+        base = {None: atoms, (1,): [1, 2, True], (4,): ['a'], (1, 4): [1, 'a'], (100,): [OA, OB], (101,): [OB], (0,): atoms}[tuple(it) if it else None]
+        alias = [{'start': E([rng.choice(base) for _ in range(rng.randint(0, 3))]), 'ops': ops()} for _ in range(6)]
+        return mk('List', args, [], alias)
+    objs = rng.sample([1, 2, 3, 'a', None, 1.5, True], rng.randint(1, 4))
+    args = A(objects=[E(o) for o in objs])
+    if rng.random() < 0.4:
+        args.update(A(allow_None=True))
+    if rng.random() < 0.2:
+        args.update(A(check_on_set=False))
+    alias = [{'start': E([rng.choice(objs) for _ in range(rng.randint(0, 3))]), 'ops': ops()} for _ in range(6)]
+    return mk('ListSelector', args, [], alias)
+
+
 def directed():
     """one small case per validator branch / repaired deviation; runs first"""
     num = [E(v) for v in [None, 0, 1, 0.5, 1.0, math.nextafter(1.0, INF), NAN, True, F1, GEN, 'a', Fraction(1, 2), Decimal('0.5')]]
@@ -939,7 +1072,7 @@ def cases(rng, tier, worker, nworkers):
     if worker == 0:
         for f in sorted(glob.glob(os.path.join(os.path.dirname(__file__), '..', '..', 'corpus', 'C01', '*.json'))):
             yield json.load(open(f))['case']
-    streams = [directed(), string_cases(), boolean_cases(), callable_cases(), tuple_cases(), color_cases(),
+    streams = [directed(), alias_cases(), string_cases(), boolean_cases(), callable_cases(), tuple_cases(), color_cases(),
                number_grid('Number'),
                number_grid('Integer', pool=[E(v) for v in integer_pool()] if tier == 'quick' else None),
                number_grid('Magnitude', [None, 0, 1]), range_grid(thin=3 if tier == 'quick' else 1),
@@ -956,8 +1089,8 @@ def cases(rng, tier, worker, nworkers):
             if i % nworkers == worker:
                 yield c
     n_random = 150 if tier == 'quick' else 64000 // nworkers
-    for _ in range(n_random):
-        yield random_case(rng)
+    for k in range(n_random):
+        yield random_alias_case(rng) if k % 5 == 4 else random_case(rng)
 
 
 # ------------------------------------------------------------------ source fragments (evidence only)
@@ -1027,6 +1160,10 @@ def tags(case, impl):
             for side, b in enumerate(case['args']['bounds']['v']):
                 if b is not None and (j.get('i', j.get('f')) is not None) and _same_number(j, b):
                     seen.add('boundary:inclusive' if incl[side] else 'boundary:exclusive')
+    for o in impl.get('alias', []):
+        for route, r in o.items():
+            if r[0] == 'ok':
+                seen.add('alias:reassign-' + ('accepted' if r[1] == 'ok' else 'rejected'))
     return t + sorted(seen)
 
 
@@ -1049,30 +1186,44 @@ def nontrivial(case, impl, resp):
     if not isinstance(impl, dict) or impl.get('ctor') != 'ok':
         return False
     rs = {o['inst'][0] for o in impl['vals']}
-    return resp.get('checked_steps', 0) >= 1 and 'ok' in rs and len(rs) >= 2
+    if resp.get('checked_steps', 0) >= 1 and 'ok' in rs and len(rs) >= 2:
+        return True
+    return any(o['inst'][0] == 'ok' and o['inst'][1] is not None for o in impl.get('alias', []))
 
 
 def shrink(case):
+    """smaller cases.  The aliasing entries are re-executed from scratch by run_impl (fresh container ->
+    held object -> in-place ops -> identical object assigned again), so identity survives shrinking."""
     vals = case['values']
+    alias = case.get('alias', [])
+    pt, args = case['ptype'], case['args']
     n = len(vals)
+    if alias and vals:
+        yield mk(pt, args, [], alias)
+    if len(alias) > 1:
+        for i in range(len(alias)):
+            yield mk(pt, args, vals, alias[:i] + alias[i + 1:])
+    for i, a in enumerate(alias):
+        for k in range(len(a['ops'])):
+            yield mk(pt, args, vals, alias[:i] + [{'start': a['start'], 'ops': a['ops'][:k] + a['ops'][k + 1:]}] + alias[i + 1:])
     if n > 1:
         for half in (vals[:n // 2], vals[n // 2:]):
-            yield mk(case['ptype'], case['args'], half)
+            yield mk(pt, args, half, alias)
         if n <= 12:
             for i in range(n):
-                yield mk(case['ptype'], case['args'], vals[:i] + vals[i + 1:])
-    for k in list(case['args']):
+                yield mk(pt, args, vals[:i] + vals[i + 1:], alias)
+    for k in list(args):
         if k in ('class_',):
             continue
-        a = {x: y for x, y in case['args'].items() if x != k}
-        yield mk(case['ptype'], a, vals)
-    b = case['args'].get('bounds', {}).get('v')
-    if b and case['ptype'] not in ('List', 'HookList'):
+        a = {x: y for x, y in args.items() if x != k}
+        yield mk(pt, a, vals, alias)
+    b = args.get('bounds', {}).get('v')
+    if b and pt not in ('List', 'HookList'):
         for side in (0, 1):
             if b[side] is not None:
                 nb = list(b)
                 nb[side] = None
-                yield mk(case['ptype'], dict(case['args'], bounds={'v': nb}), vals)
+                yield mk(pt, dict(args, bounds={'v': nb}), vals, alias)
 
 
 def classify(case, impl, fail):
